@@ -221,7 +221,32 @@ CHECKS["C18"] = dict(
     ref="DESIGN.md section 5 C18, section 3.9",
     technique="TLC enumeration of message histories (MsgCache.tla) + replay with per-request alphabets on two connections")
 
+CHECKS["C19"] = dict(
+    engine="listing", category="model_checking",
+    note=("Trusted base: TLC; the paging loop and backend algorithms of spec/Readdir.tla; ground truth = the names the harness "
+          "created; uniform name lengths per directory so byte counts can be computed without knowing localfs' OS order."),
+    text=("Readdir.tla models the paging client loop (next offset = Offset of the last entry), whole-entry truncation to the "
+          "requested byte count and the index / localfs backend algorithms; TLC checks completeness, uniqueness and termination "
+          "for all directory sizes 0..6 and per-call fit sequences; every case is scaled to real directories (up to ~1500 entries, "
+          "names 6..255 bytes) on localfs, staticfs, composefs and nested mounts, directly and through client+server, and each "
+          "entry's QID/type is compared with Walk + GetAttr."),
+    ref="DESIGN.md section 5 C19", technique="TLC model checking of the paging loop (Readdir.tla) + scaled replay on the real file systems")
+CHECKS["C20"] = dict(
+    engine="qid", category="model_checking",
+    note=("Trusted base: TLC; Qid.tla's field-record statement of the compact encoding; the verif export of localToQid "
+          "(hook); the Go race detector in the thorough tier for the memory-model side of concurrent lookups."),
+    text=("Qid.tla states the compact (dev, ino) encoding and the fallback table over symbolic field magnitudes (TLC checks "
+          "injectivity and disjointness on the grid), Mapper.QIDFor with the code's step granularity under 3 concurrent callers "
+          "(Stable, Injective over all interleavings) and the mode round trip for all 28 672 (type, permission) values; the grid "
+          "is replayed through localfs' verif export (stability, exact values, injectivity as the table grows), all modes through "
+          "OSMode/ModeFromOS/QIDType, and concurrent lookups through composefs/staticfs in a child process."),
+    ref="DESIGN.md section 5 C20", technique="TLC model checking of Qid.tla (mapper interleavings, tables) + grid/mode replay + concurrent stress in a child process")
+
 ENGINES = [
+    {"name": "listing", "path": "spec/Readdir.tla + harness/cmd/listing", "serves_properties": ["C19"],
+     "kind_free_text": "paging loop model; scaled replay on localfs/staticfs/composefs"},
+    {"name": "qid", "path": "spec/Qid.tla + harness/cmd/qidcheck + fsimpl/localfs/verif_export.go", "serves_properties": ["C20"],
+     "kind_free_text": "tables and mapper interleavings; grid and mode replay"},
     {"name": "msgcache", "path": "spec/MsgCache.tla + spec/MC_MsgCache.tla + harness/cmd/msgcache", "serves_properties": ["C18"],
      "kind_free_text": "histories over recycled objects enumerated by TLC; replay with unique alphabets"},
     {"name": "segments", "path": "spec/Segments.tla + spec/MC_Segments.tla + harness/cmd/segments", "serves_properties": ["C17"],
